@@ -889,7 +889,16 @@ class _TftpReadRequest:
                 ErrorCode.UNKNOWN_TRANSFER_ID,
                 "This port is associated with a different client connection.",
             )
-            self._socket.sendto(data, from_addr)
+            try:
+                self._socket.sendto(data, from_addr)
+            except OSError:
+                # If the error packet cannot be sent (e.g. because the source
+                # port of the unexpected packet is zero), this must not affect
+                # the connection that is handled by this socket.
+                logger.debug(
+                    "Could not send error packet to %s.",
+                    socket_address_to_str(from_addr),
+                )
             # Some time has already passed, so we have to reset the socket
             # timeout.
             self._set_socket_timeout()
